@@ -46,7 +46,7 @@ CHECKS["C10"] = dict(
 CHECKS["C15"] = dict(
     category="fault_enumeration",
     technique="deterministic simulation with fault injection: expected-log model vs decoded exports; simulated disk with create/ENOSPC-at-every-offset/short-write/EINTR/flush faults; /dev/full; configuration export of generated trees and all templates",
-    text="Log content: generated configurations with loggers and rule sets, fault-free or with one injected failure; the reference interpreter's expected log must equal the decoded JSON and CBOR exports. Export path: for each exported artefact (json, cbor, ron) the device-full fault is enumerated over every byte offset of the fault-free output, plus create, flush, short-write and EINTR faults on a simulated disk behind the cfg(mahf_verif) I/O seam: Ok(()) implies the bytes on disk decode to the expected content, transient faults must not fail the export; the same against the kernel's /dev/full without a hook. Configuration export: generated trees and all shipped templates serialise, show the pre-order sequence of components and parameters, equal their clone's, differ from a mutated configuration's. par_experiment's file set under simulated schedules and I/O faults.",
+    text="Log content: generated configurations with loggers and rule sets, fault-free or with one injected failure; the reference interpreter's expected log must equal the decoded JSON and CBOR exports. Export path: for each exported artefact (json, cbor, ron) the device-full fault is enumerated over every byte offset of the fault-free output, plus create, flush, short-write and EINTR faults on a simulated disk behind the cfg(mahf_verif) I/O seam: Ok(()) implies the bytes on disk decode to the expected content, transient faults must not fail the export; the same against the kernel's /dev/full without a hook. Configuration export: generated trees and all shipped templates serialise, show the pre-order sequence of components and parameters, equal their clone's, differ from a mutated configuration's; exporting over an existing longer file leaves exactly the new content. par_experiment's file set under simulated schedules and I/O faults.",
     note="Sampling over logs/configurations; exhaustive over single ENOSPC offsets per artefact. The disk under faults is an in-memory stub; serde_json, ciborium, ron and std::fs are real. After an export returned Err nothing is claimed about the file.",
     design_ref="5/C15",
 )
@@ -56,7 +56,7 @@ _TW_NOTE = "Trusts the harness problems' pure reference objective and the cfg(ma
 CHECKS["C05"] = dict(
     category="exploration",
     technique="deterministic simulation: every shipped template stepped under a seeded generator, audit of every memory after every component execution; parallel evaluator on a simulated worker pool under seeded schedules",
-    text="Seeded search over all 21 shipped templates (plus two archive assemblies) with swarm-style valid parameters, instances with and without penalty regions (+inf), sequential evaluator; after EVERY child execution of every sequential block at every nesting level every evaluated individual in the population stack, best-so-far, elitist archive, personal/global bests and molecule memories must carry exactly F(solution). A second batch repeats the audit while the objectives are written by the simulated workers of evaluate::Parallel under seeded schedules. The individual-level clause is observed on the real operators as they run, not enumerated over the Individual API (that part of the quantifier is input enumeration and is left out).",
+    text="Seeded search over all 21 shipped templates (plus two archive assemblies) with swarm-style valid parameters, instances with and without penalty regions (+inf), sequential evaluator; after EVERY child execution of every sequential block at every nesting level every evaluated individual in the population stack, best-so-far, elitist archive, personal/global bests and molecule memories must carry exactly F(solution). A second batch repeats the audit while the objectives are written by the simulated workers of evaluate::Parallel under seeded schedules. The individual-level clause is checked by seeded histories of Individual operations (construction, evaluation, every mutable access, clone / clone_from through Vec, slice and Option, population helpers) against an (solution, Option<objective>) model; assemblies of de::de / ga::ga run the shipped operators no template wires in by default.",
     note=_TW_NOTE,
     design_ref="5/C05",
 )
@@ -105,7 +105,7 @@ CHECKS["C19"] = dict(
 CHECKS["C20"] = dict(
     category="exploration",
     technique="deterministic simulation: energy ledger and (individual, molecule) pairing model around every reaction along seeded CRO runs",
-    text="CRO template runs over its nine parameters (buffer 0, initial KE 0, alpha 0, large beta, mole_coll 0/1 included), up to 300 iterations; around every elementary-reaction update: sum of objective values + kinetic energies + buffer unchanged (1e-9 relative), no negative kinetic energy or buffer, one molecule record per individual, pairs not involved in the reaction unchanged and in order, exactly two populations consumed. All four reactions are reached in accepted and rejected outcomes (probes).",
+    text="CRO template runs over its nine parameters (buffer 0, initial KE 0, alpha 0, large beta, mole_coll 0/1 included), up to 300 iterations; around every elementary-reaction update: sum of objective values + kinetic energies + buffer unchanged (1e-9 relative), no negative kinetic energy or buffer, one molecule record per individual, pairs not involved in the reaction unchanged and in order, exactly two populations consumed. All four reactions are reached in accepted and rejected outcomes (probes). A second batch executes single reactions on hand-built three-population stacks (energies on grids around the acceptance threshold, equal individuals, second reactant before the first, empty buffer).",
     note=_TW_NOTE,
     design_ref="5/C20",
 )
